@@ -74,6 +74,9 @@ def extra(tier, seed):
     for name, status, detail, _group in checks:
         out.append(Extra(f'C08:static:{name}', 'static', status, 'ast-static', dt, detail,
                          None if status == 'discharged' else {'detail': detail}))
+    # round 3 (m1): every local bound before it is read (incl. reads in dropped logger calls / exception messages)
+    from contracts import m1_static
+    out += m1_static.extras('C08')
     # ... and every cell of every table against the raw fields, natively
     quick = tier == 'quick'
     nv, nc, nl = (8, 3, 6) if quick else (60, 24, 100)
